@@ -341,3 +341,22 @@ class FieldFamily:
                 import traceback
                 return dict(why="raised", observed=f"{type(e).__name__}: {e}", step=step, tb=traceback.format_exc()[-400:])
         return None
+
+
+@monitor("known_D2")
+def mon_known_d2(doc, rng):
+    """known finding D2 (C11): the points (0, +-2) of E(F_p) compress but do not decompress"""
+    from py_ecc.bls.point_compression import compress_G1, decompress_G1
+    from py_ecc.optimized_bls12_381 import FQ
+    p = FQ.field_modulus
+    rep = 0
+    for y in (2, p - 2):
+        pt = (FQ(0), FQ(y), FQ(1))
+        z = compress_G1(pt)
+        try:
+            back = decompress_G1(z)
+            if not (back[0] == pt[0] and back[1] == pt[1]):
+                rep += 1
+        except ValueError:
+            rep += 1
+    return dict(ok=True, reproduced=(rep == 2), evaluations=2)
